@@ -17,6 +17,7 @@ package main
 //	bcommit <bid>                BlockCache.Commit                                                       -> ok
 //	qget <hash> <key>            NewQueryBlockCache(sc, hash).Get(key)                                   -> hit <val> | miss
 //	sget <key> <hash>            StateCache.Get(key, hash)                                               -> hit <val> | miss
+//	srem <key>                   StateCache.Remove(key): drops the key's whole version map                -> ok
 //	chain <n> <pfx> <prev> <key|-> <val>   n block caches <pfx>1..<pfx>n, each the child of the previous one (the first
 //	                             of <prev>), created and committed in order; the first writes key=val if key != "-"  -> ok
 //	fan <n> <pfx> <prev> <key> <valpfx>    n sibling block caches <pfx>i with parent prev, each writes key=<valpfx><i-hex>
@@ -182,6 +183,8 @@ type scWorld struct {
 	// entryBlocks[key] = blocks that may have received an entry in the key's version map: own committed writes
 	// plus every block a state-level lookup for the key was issued at (memo candidates)
 	entryBlocks map[string]map[string]bool
+	removed     map[string]bool // keys whose version map was dropped by StateCache.Remove
+	outOfOrder  bool            // some block was committed after one of its children
 	node        bool // value tokens are trie-node encodings
 	mutate      bool // scribble over every value handed in or out (C07)
 	strict      bool // C07 publish: a miss where a value is expected is a failure while no capacity is exceeded
@@ -199,7 +202,7 @@ type scWorld struct {
 
 func newSCWorld(res *CaseResult) *scWorld {
 	return &scWorld{sc: statecache.NewStateCache(), T: map[string]*scBlock{}, bh: map[string]*scBH{}, th: map[string]*scTH{},
-		entryBlocks: map[string]map[string]bool{}, res: res, tags: map[string]bool{}}
+		entryBlocks: map[string]map[string]bool{}, removed: map[string]bool{}, res: res, tags: map[string]bool{}}
 }
 
 func hashOf(tok string) string {
@@ -292,7 +295,10 @@ func (w *scWorld) withinCapacity(key string) bool {
 	return len(w.entryBlocks[key]) <= scCapPerKey && w.commits <= scMaxDepth
 }
 
-const findingEviction = "C06-capacity-eviction"
+const (
+	findingEviction = "C06-capacity-eviction"
+	findingRemove   = "C06-remove-out-of-order"
+)
 
 // judge compares a lookup result with the expectation.
 func (w *scWorld) judge(out string, x scExpect, key, stateBlk string, throughState bool) {
@@ -315,6 +321,8 @@ func (w *scWorld) judge(out string, x scExpect, key, stateBlk string, throughSta
 			// narrow matcher of the open known finding
 			if throughState && len(w.entryBlocks[key]) > scCapPerKey {
 				w.setFinding(findingEviction)
+			} else if throughState && w.removed[key] && w.outOfOrder {
+				w.setFinding(findingRemove)
 			} else {
 				w.setFinding("")
 			}
@@ -340,7 +348,7 @@ func (w *scWorld) judge(out string, x scExpect, key, stateBlk string, throughSta
 			w.tags["miss:nothing"] = true
 		default:
 			w.tags["miss:avoidable"] = true
-			if w.strict && w.withinCapacity(key) && x.dist <= scMaxDepth {
+			if w.strict && w.withinCapacity(key) && x.dist <= scMaxDepth && !w.removed[key] {
 				w.fail("lookup missed but %s holds value %s and no capacity was exceeded", x.src, x.e.val)
 				w.setFinding("")
 			}
@@ -389,6 +397,12 @@ func (w *scWorld) recordCommit(b *scBH) {
 	if _, dup := w.T[b.hash]; dup {
 		w.tags["commit:duplicate"] = true
 		return
+	}
+	for _, x := range w.T {
+		if x.prev == b.hash && b.hash != "" {
+			w.outOfOrder = true // a child of this block is already committed
+			w.tags["commit:out-of-order"] = true
+		}
 	}
 	blk := &scBlock{prev: b.prev, writes: b.pending}
 	w.T[b.hash] = blk
@@ -539,6 +553,13 @@ func (w *scWorld) step(i int, op string) string {
 		out := guard(func() string { return w.outGet(w.sc.Get(f[1], h)) })
 		w.judge(out, x, f[1], h, true)
 		return out
+	case "srem":
+		need(2)
+		w.sc.Remove(f[1])
+		w.removed[f[1]] = true
+		delete(w.entryBlocks, f[1]) // the map starts empty again
+		w.tags["remove-key"] = true
+		return "ok"
 	case "chain":
 		need(6)
 		n, err := strconv.Atoi(f[1])
